@@ -1,0 +1,156 @@
+//go:build verif
+
+// Contracts for package options, read by the verification-condition generator in /verif/govc.
+// This file contains comments only; it is compiled only with -tags verif and adds no code.
+
+package options
+
+/*@
+// gcfg.ReadInto sets exactly the configured fields that the file mentions and nothing else (A-LIB)
+extern gopkg.in/gcfg.v1.ReadInto(config, reader) returns (err)
+  modifies cellat(options.Options, payload(config))
+  modifies ghost(cfgRd)
+  let o := payload(config)
+  ensures cfgRd == payload(reader)
+  ensures err == nil ==> cellat(options.Options, o).GlobalConfig.DbFileName  == (if CfgHas(cfgRd, 1) then CfgStr(cfgRd, 1) else old(cellat(options.Options, o).GlobalConfig.DbFileName))
+  ensures err == nil ==> cellat(options.Options, o).GlobalConfig.LogFileName == (if CfgHas(cfgRd, 2) then CfgStr(cfgRd, 2) else old(cellat(options.Options, o).GlobalConfig.LogFileName))
+  ensures err == nil ==> cellat(options.Options, o).GlobalConfig.DateFormat  == (if CfgHas(cfgRd, 3) then CfgStr(cfgRd, 3) else old(cellat(options.Options, o).GlobalConfig.DateFormat))
+  ensures err == nil ==> cellat(options.Options, o).GlobalConfig.Now         == (if CfgHas(cfgRd, 4) then CfgTime(cfgRd, 4) else old(cellat(options.Options, o).GlobalConfig.Now))
+  ensures err == nil ==> cellat(options.Options, o).ResolverConfig.MaxDepth  == (if CfgHas(cfgRd, 5) then CfgInt(cfgRd, 5) else old(cellat(options.Options, o).ResolverConfig.MaxDepth))
+  ensures cellat(options.Options, o).ParserConfig == old(cellat(options.Options, o).ParserConfig) && cellat(options.Options, o).ReporterConfig == old(cellat(options.Options, o).ReporterConfig) && cellat(options.Options, o).FilterConfig == old(cellat(options.Options, o).FilterConfig)
+
+// fileExists: (true, nil) iff the file exists, (false, nil) iff it does not, an error otherwise
+func fileExists returns (ex, err)
+  props C16 C08
+  ensures @exists  err == nil ==> ex == FileExists(name)
+  ensures @error   err != nil ==> !IsNotExistErr(err)
+
+// precedence of one string setting: flag, else environment, else configuration file, else default
+fun Prec(isSet bool, flagOrEnv string, cfgHas bool, cfgVal string, def string) string :=
+  if isSet then flagOrEnv else (if cfgHas && cfgVal != "" then cfgVal else def)
+
+func (*Options).populateGlobals returns (err)
+  props C16 C08
+  requires o != nil && c != nil
+  requires @flags-defined CtxDef(c, "database") != 0 && CtxDef(c, "logfile") != 0 && CtxDef(c, "date-format") != 0 && CtxDef(c, "today") != 0
+  modifies o.GlobalConfig
+  ensures @database err == nil && !CtxIsSet(c, "no-database") ==> o.GlobalConfig.DbFileName == (if CtxIsSet(c, "database") || old(o.GlobalConfig.DbFileName) == "" then CtxString(c, "database") else old(o.GlobalConfig.DbFileName))
+  ensures @logfile  err == nil ==> o.GlobalConfig.LogFileName == (if CtxIsSet(c, "logfile") || old(o.GlobalConfig.LogFileName) == "" then CtxString(c, "logfile") else old(o.GlobalConfig.LogFileName))
+  ensures @datefmt  err == nil ==> o.GlobalConfig.DateFormat == (if CtxIsSet(c, "date-format") || old(o.GlobalConfig.DateFormat) == "" then CtxString(c, "date-format") else old(o.GlobalConfig.DateFormat))
+  ensures @today    err == nil ==> o.GlobalConfig.Now == (if CtxIsSet(c, "today") then ParseTimeVal(o.GlobalConfig.DateFormat, CtxString(c, "today")) else old(o.GlobalConfig.Now))
+  ensures @today-err CtxIsSet(c, "today") && !ParseTimeOk(o.GlobalConfig.DateFormat, CtxString(c, "today")) ==> err != nil
+
+func (*Options).populateResolver
+  props C16 C08
+  requires o != nil && c != nil && CtxDef(c, "maxdepth") != 0
+  modifies o.ResolverConfig
+  ensures @maxdepth o.ResolverConfig.MaxDepth == (if CtxIsSet(c, "maxdepth") || old(o.ResolverConfig.MaxDepth) == 0 then IntOfStr(CtxString(c, "maxdepth")) else old(o.ResolverConfig.MaxDepth))
+
+// ---------------------------------------------------------------------------------------------
+// Period flags (C06) and presentation flags (C15) may be given at any level of the command line.
+// The loops walk the lineage from the root (last index) to the innermost context (index 0).
+// FirstSet(c,name,k,n): least lineage index j in [k,n) at which the flag is set (-1: none) = the innermost one
+// AnySet(c,name,k,n): the flag is set at some lineage index in [k,n)
+// ---------------------------------------------------------------------------------------------
+fun FirstSet(c int, name string, k int, n int) int :=
+  if k >= n then 0 - 1 else (if CtxIsSet(LineageAt(c, k), name) then k else FirstSet(c, name, k + 1, n))
+fun AnySet(c int, name string, k int, n int) bool :=
+  if k >= n then false else (CtxIsSet(LineageAt(c, k), name) || AnySet(c, name, k + 1, n))
+
+// GetTimeFromString is a function of its arguments for the four keywords and for dates in the configured
+// layout (GTFS); only the natural-language fallback consults the clock.
+fun GTFS(now time.Time, format string, date string) time.Time
+pred IsDateKeyword(date string) := date == "today" || date == "yesterday" || date == "last7" || date == "last30"
+
+func GetTimeFromString returns (t, err)
+  props C06 C08
+  ensures @today     date == "today"     ==> err == nil && Inst(t) == Inst(now)
+  ensures @yesterday date == "yesterday" ==> err == nil && t == AddDays(now, 0 - 1)
+  ensures @last7     date == "last7"     ==> err == nil && t == AddDays(now, 0 - 7)
+  ensures @last30    date == "last30"    ==> err == nil && t == AddDays(now, 0 - 30)
+  ensures @explicit  !IsDateKeyword(date) && ParseTimeOk(format, date) ==> err == nil && t == ParseTimeVal(format, date)
+  free ensures @function err == nil && (IsDateKeyword(date) || ParseTimeOk(format, date)) ==> t == GTFS(now, format, date)
+
+pred PeriodBound(p *time.Time, c *cli.Context, name string, now time.Time, format string, n int, oldp *time.Time) :=
+     (FirstSet(c, name, 0, n) == 0 - 1 ==> p == oldp)
+  && (FirstSet(c, name, 0, n) >= 0 ==> p != nil && (IsDateKeyword(CtxString(LineageAt(c, FirstSet(c, name, 0, n)), name)) || ParseTimeOk(format, CtxString(LineageAt(c, FirstSet(c, name, 0, n)), name)) ==> *p == GTFS(now, format, CtxString(LineageAt(c, FirstSet(c, name, 0, n)), name))))
+
+func (*Options).populateFilter returns (err)
+  props C06 C08
+  requires o != nil && c != nil
+  requires @flags-defined forall j int :: {LineageAt(c, j)} 0 <= j && j < LineageLen(c) ==> CtxDef(LineageAt(c, j), "begin") != 0 && CtxDef(LineageAt(c, j), "end") != 0
+  modifies o.FilterConfig
+  // the innermost context that sets a bound wins; a bound set nowhere is left alone
+  ensures @begin-innermost err == nil ==> PeriodBound(o.FilterConfig.BeginningTime, c, "begin", o.GlobalConfig.Now, o.GlobalConfig.DateFormat, LineageLen(c), old(o.FilterConfig.BeginningTime))
+  ensures @end-innermost   err == nil ==> PeriodBound(o.FilterConfig.EndTime, c, "end", o.GlobalConfig.Now, o.GlobalConfig.DateFormat, LineageLen(c), old(o.FilterConfig.EndTime))
+  ensures @globals-kept o.GlobalConfig == old(o.GlobalConfig)
+  loop 1 {
+    decreases i + 1
+    invariant @range 0 - 1 <= i && i < LineageLen(c) && o == old(o) && c == old(c) && o.GlobalConfig == old(o.GlobalConfig)
+    invariant @begin (FirstSet(c, "begin", i + 1, LineageLen(c)) == 0 - 1 ==> o.FilterConfig.BeginningTime == old(o.FilterConfig.BeginningTime)) && (FirstSet(c, "begin", i + 1, LineageLen(c)) >= 0 ==> o.FilterConfig.BeginningTime != nil && fresh(o.FilterConfig.BeginningTime) && (IsDateKeyword(CtxString(LineageAt(c, FirstSet(c, "begin", i + 1, LineageLen(c))), "begin")) || ParseTimeOk(o.GlobalConfig.DateFormat, CtxString(LineageAt(c, FirstSet(c, "begin", i + 1, LineageLen(c))), "begin")) ==> *o.FilterConfig.BeginningTime == GTFS(o.GlobalConfig.Now, o.GlobalConfig.DateFormat, CtxString(LineageAt(c, FirstSet(c, "begin", i + 1, LineageLen(c))), "begin"))))
+    invariant @end (FirstSet(c, "end", i + 1, LineageLen(c)) == 0 - 1 ==> o.FilterConfig.EndTime == old(o.FilterConfig.EndTime)) && (FirstSet(c, "end", i + 1, LineageLen(c)) >= 0 ==> o.FilterConfig.EndTime != nil && fresh(o.FilterConfig.EndTime) && (IsDateKeyword(CtxString(LineageAt(c, FirstSet(c, "end", i + 1, LineageLen(c))), "end")) || ParseTimeOk(o.GlobalConfig.DateFormat, CtxString(LineageAt(c, FirstSet(c, "end", i + 1, LineageLen(c))), "end")) ==> *o.FilterConfig.EndTime == GTFS(o.GlobalConfig.Now, o.GlobalConfig.DateFormat, CtxString(LineageAt(c, FirstSet(c, "end", i + 1, LineageLen(c))), "end"))))
+  }
+  ghost after call 1 Lineage { unfold FirstSet(c, "begin", LineageLen(c), LineageLen(c)); unfold FirstSet(c, "end", LineageLen(c), LineageLen(c)) }
+  ghost before call 2 Lineage { unfold FirstSet(c, "begin", i, LineageLen(c)); unfold FirstSet(c, "end", i, LineageLen(c)) }
+
+func (*Options).populateReporter
+  props C15 C14 C08
+  requires o != nil && c != nil
+  requires @flags-defined forall j int :: {LineageAt(c, j)} 0 <= j && j < LineageLen(c) ==> CtxDef(LineageAt(c, j), "csv") != 0 && CtxDef(LineageAt(c, j), "no-color") != 0 && CtxDef(LineageAt(c, j), "collapse-last") != 0 && CtxDef(LineageAt(c, j), "collapse") != 0 && CtxDef(LineageAt(c, j), "no-totals") != 0 && CtxDef(LineageAt(c, j), "totals-only") != 0 && CtxDef(LineageAt(c, j), "shorten") != 0 && CtxDef(LineageAt(c, j), "use-old-reg-reporter") != 0 && CtxDef(LineageAt(c, j), "internal-template-name") != 0
+  requires @own-flags CtxDef(c, "single-food") != 0 && CtxDef(c, "group-food") != 0 && CtxDef(c, "single-element") != 0
+  modifies o.ReporterConfig
+  // a presentation flag is honoured at whatever level of the command line it is given
+  ensures @csv [C15] o.ReporterConfig.CSV == (old(o.ReporterConfig.CSV) || AnySet(c, "csv", 0, LineageLen(c)))
+  ensures @no-color [C15] o.ReporterConfig.Color == (old(o.ReporterConfig.Color) && !AnySet(c, "no-color", 0, LineageLen(c)))
+  ensures @collapse-last [C15] o.ReporterConfig.CollapseLast == (old(o.ReporterConfig.CollapseLast) || AnySet(c, "collapse-last", 0, LineageLen(c)))
+  ensures @collapse [C15] o.ReporterConfig.Collapse == (old(o.ReporterConfig.Collapse) || AnySet(c, "collapse", 0, LineageLen(c)))
+  ensures @no-totals [C15] o.ReporterConfig.Totals == (old(o.ReporterConfig.Totals) && !AnySet(c, "no-totals", 0, LineageLen(c)))
+  ensures @totals-only [C15] o.ReporterConfig.TotalsOnly == (old(o.ReporterConfig.TotalsOnly) || AnySet(c, "totals-only", 0, LineageLen(c)))
+  ensures @shorten [C15] o.ReporterConfig.ShortenStrings == (old(o.ReporterConfig.ShortenStrings) || AnySet(c, "shorten", 0, LineageLen(c)))
+  ensures @use-old-reg-reporter [C15] o.ReporterConfig.UseOldRegReporter == (old(o.ReporterConfig.UseOldRegReporter) || AnySet(c, "use-old-reg-reporter", 0, LineageLen(c)))
+  ensures @output [C15] o.ReporterConfig.Output == old(o.ReporterConfig.Output)
+  // print/stats write dates in the layout they are read in (the --date-format flag governs both)
+  ensures @print-layout [C14] o.ReporterConfig.DateFormat == o.GlobalConfig.DateFormat
+  loop 1 {
+    decreases i + 1
+    invariant @range 0 - 1 <= i && i < LineageLen(c) && o == old(o) && c == old(c) && o.GlobalConfig == old(o.GlobalConfig) && o.ReporterConfig.Output == old(o.ReporterConfig.Output)
+    invariant @csv o.ReporterConfig.CSV == (old(o.ReporterConfig.CSV) || AnySet(c, "csv", i + 1, LineageLen(c)))
+    invariant @no-color o.ReporterConfig.Color == (old(o.ReporterConfig.Color) && !AnySet(c, "no-color", i + 1, LineageLen(c)))
+    invariant @collapse-last o.ReporterConfig.CollapseLast == (old(o.ReporterConfig.CollapseLast) || AnySet(c, "collapse-last", i + 1, LineageLen(c)))
+    invariant @collapse o.ReporterConfig.Collapse == (old(o.ReporterConfig.Collapse) || AnySet(c, "collapse", i + 1, LineageLen(c)))
+    invariant @no-totals o.ReporterConfig.Totals == (old(o.ReporterConfig.Totals) && !AnySet(c, "no-totals", i + 1, LineageLen(c)))
+    invariant @totals-only o.ReporterConfig.TotalsOnly == (old(o.ReporterConfig.TotalsOnly) || AnySet(c, "totals-only", i + 1, LineageLen(c)))
+    invariant @shorten o.ReporterConfig.ShortenStrings == (old(o.ReporterConfig.ShortenStrings) || AnySet(c, "shorten", i + 1, LineageLen(c)))
+    invariant @use-old-reg-reporter o.ReporterConfig.UseOldRegReporter == (old(o.ReporterConfig.UseOldRegReporter) || AnySet(c, "use-old-reg-reporter", i + 1, LineageLen(c)))
+  }
+  ghost after call 1 Lineage { unfold AnySet(c, "csv", LineageLen(c), LineageLen(c)); unfold AnySet(c, "no-color", LineageLen(c), LineageLen(c)); unfold AnySet(c, "collapse-last", LineageLen(c), LineageLen(c)); unfold AnySet(c, "collapse", LineageLen(c), LineageLen(c)); unfold AnySet(c, "no-totals", LineageLen(c), LineageLen(c)); unfold AnySet(c, "totals-only", LineageLen(c), LineageLen(c)); unfold AnySet(c, "shorten", LineageLen(c), LineageLen(c)); unfold AnySet(c, "use-old-reg-reporter", LineageLen(c), LineageLen(c)) }
+  ghost before call 2 Lineage { unfold AnySet(c, "csv", i, LineageLen(c)); unfold AnySet(c, "no-color", i, LineageLen(c)); unfold AnySet(c, "collapse-last", i, LineageLen(c)); unfold AnySet(c, "collapse", i, LineageLen(c)); unfold AnySet(c, "no-totals", i, LineageLen(c)); unfold AnySet(c, "totals-only", i, LineageLen(c)); unfold AnySet(c, "shorten", i, LineageLen(c)); unfold AnySet(c, "use-old-reg-reporter", i, LineageLen(c)) }
+
+// ---------------------------------------------------------------------------------------------
+// Load (C16): every setting takes the command-line value, else its HR_* environment variable, else the
+// configuration file (default location, --config or HR_CONFIG), else the documented default.
+// ---------------------------------------------------------------------------------------------
+pred IsDefaultOptions(o *Options) := o.GlobalConfig.DbFileName == "food.yaml" && o.GlobalConfig.LogFileName == "log.yaml" && o.GlobalConfig.DateFormat == "2006/01/02" && o.ResolverConfig.MaxDepth == 10
+
+func (*Options).Load returns (err)
+  props C16 C14 C06 C15 C08
+  requires o != nil && c != nil && IsDefaultOptions(o)
+  requires @global-flags CtxDef(c, "config") != 0 && CtxDef(c, "database") != 0 && CtxDef(c, "logfile") != 0 && CtxDef(c, "date-format") != 0 && CtxDef(c, "today") != 0 && CtxDef(c, "maxdepth") != 0
+  requires @own-flags CtxDef(c, "single-food") != 0 && CtxDef(c, "group-food") != 0 && CtxDef(c, "single-element") != 0
+  requires @lineage-flags forall j int :: {LineageAt(c, j)} 0 <= j && j < LineageLen(c) ==> CtxDef(LineageAt(c, j), "csv") != 0 && CtxDef(LineageAt(c, j), "no-color") != 0 && CtxDef(LineageAt(c, j), "collapse-last") != 0 && CtxDef(LineageAt(c, j), "collapse") != 0 && CtxDef(LineageAt(c, j), "no-totals") != 0 && CtxDef(LineageAt(c, j), "totals-only") != 0 && CtxDef(LineageAt(c, j), "shorten") != 0 && CtxDef(LineageAt(c, j), "use-old-reg-reporter") != 0 && CtxDef(LineageAt(c, j), "internal-template-name") != 0 && CtxDef(LineageAt(c, j), "begin") != 0 && CtxDef(LineageAt(c, j), "end") != 0
+  requires @documented-defaults FlagDefault("database") == "food.yaml" && FlagDefault("logfile") == "log.yaml" && FlagDefault("date-format") == "2006/01/02" && IntOfStr(FlagDefault("maxdepth")) == 10
+  modifies o.GlobalConfig, o.ResolverConfig, o.ReporterConfig, o.FilterConfig
+  modifies ghost(cfgRd)
+  let path := CtxString(c, "config")
+  let loaded := useConfigFile && FileExists(path)
+  ensures @explicit-missing-config [C16] useConfigFile && !FileExists(path) && CtxIsSet(c, "config") ==> err != nil
+  ensures @config-is-the-named-file [C16] err == nil && loaded ==> FileNameOf(RdSrc(cfgRd)) == path
+  ensures @database [C16] err == nil && !CtxIsSet(c, "no-database") ==> o.GlobalConfig.DbFileName == Prec(CtxIsSet(c, "database"), CtxString(c, "database"), loaded && CfgHas(cfgRd, 1), CfgStr(cfgRd, 1), "food.yaml")
+  ensures @logfile [C16] err == nil ==> o.GlobalConfig.LogFileName == Prec(CtxIsSet(c, "logfile"), CtxString(c, "logfile"), loaded && CfgHas(cfgRd, 2), CfgStr(cfgRd, 2), "log.yaml")
+  ensures @date-format [C16] err == nil ==> o.GlobalConfig.DateFormat == Prec(CtxIsSet(c, "date-format"), CtxString(c, "date-format"), loaded && CfgHas(cfgRd, 3), CfgStr(cfgRd, 3), "2006/01/02")
+  ensures @maxdepth [C16] err == nil ==> o.ResolverConfig.MaxDepth == (if CtxIsSet(c, "maxdepth") then IntOfStr(CtxString(c, "maxdepth")) else (if loaded && CfgHas(cfgRd, 5) && CfgInt(cfgRd, 5) != 0 then CfgInt(cfgRd, 5) else 10))
+  ensures @today [C16] err == nil ==> o.GlobalConfig.Now == (if CtxIsSet(c, "today") then ParseTimeVal(o.GlobalConfig.DateFormat, CtxString(c, "today")) else (if loaded && CfgHas(cfgRd, 4) then CfgTime(cfgRd, 4) else old(o.GlobalConfig.Now)))
+  ensures @print-layout [C14] err == nil ==> o.ReporterConfig.DateFormat == o.GlobalConfig.DateFormat
+  ensures @begin-innermost [C06] err == nil ==> PeriodBound(o.FilterConfig.BeginningTime, c, "begin", o.GlobalConfig.Now, o.GlobalConfig.DateFormat, LineageLen(c), old(o.FilterConfig.BeginningTime))
+  ensures @end-innermost [C06] err == nil ==> PeriodBound(o.FilterConfig.EndTime, c, "end", o.GlobalConfig.Now, o.GlobalConfig.DateFormat, LineageLen(c), old(o.FilterConfig.EndTime))
+@*/
